@@ -1,23 +1,277 @@
-//! C02: not built yet
+//! C02: no accepted QoS 1/2 publish is ever lost (client).
+//!
+//! State-machine half (substrate S2, `rumqttc::MqttState` and `rumqttc::v5::MqttState`):
+//! after **every** guarded call the retransmission set the state machine would hand back
+//! (`ids(state.clone().clean())`), the parked collision and the driver's `pending` queue are
+//! compared with M-client's `live` set by unique payload id.
+//!
+//! The event-loop half (substrate S3: byte-level crash points, `EventLoop.pending`, wire log
+//! of the next connection) plugs in through `s3_half()` below and reuses the same oracles on
+//! a `View` built from `poll()` results.
 use super::{Meta, Prop};
-use crate::common::{Ctx, Stats};
+use crate::common::{Ctx, Record, Stats};
+use crate::gen::cwork::{self, Step, View};
+use crate::model::mclient::Phase;
+use crate::sub::s2::Pk;
+use serde_json::Value;
 
-fn run(_ctx: &Ctx) -> Stats {
-    let mut s = Stats::default();
-    s.inconclusive.push("check not built yet".into());
-    s
+pub const ID: &str = "C02";
+
+fn find_pub<'a>(v: &View<'a>, payload: &str) -> Option<&'a Pk> {
+    let in_state = v
+        .after
+        .and_then(|a| a.held.pubs.iter().find(|p| matches!(p, Pk::Publish { payload: x, .. } if x == payload)));
+    in_state.or_else(|| {
+        v.pending
+            .iter()
+            .find(|p| matches!(p, Pk::Publish { payload: x, .. } if x == payload))
+    })
+}
+
+/// Oracles of C02 on one step. Evaluated for every property's run (a known C02 defect ends a
+/// C07/C10 history too), judged as violations only by C02's own run.
+pub fn oracles(v: &View, stats: &mut Stats) -> Vec<Record> {
+    let mut out = vec![];
+    let reads_state = matches!(
+        v.step,
+        Step::Call { .. } | Step::Failed | Step::Reconnected { .. } | Step::ReplayDone
+    );
+    if !reads_state {
+        return out;
+    }
+    let (new_on_wire, via_release) = match &v.step {
+        Step::Call { delta, .. } => (
+            delta.new_sent.clone().or(delta.released_parked.clone()),
+            delta.released_parked.is_some(),
+        ),
+        _ => (None, false),
+    };
+
+    // (1) live ⊆ held, by payload id; held = ids(state.clone().clean()) ∪ collision ∪ pending
+    if let Some(after) = v.after {
+        stats.oracle("C02/live-subset-of-held");
+        for l in v.model.live.values() {
+            match l.phase {
+                Phase::Sent => match find_pub(v, &l.pid) {
+                    Some(Pk::Publish { pkid, qos, topic, .. }) => {
+                        if *pkid != l.pkid || *qos != l.qos || topic != &l.topic {
+                            out.push(
+                                v.tag(Record::new(
+                                    ID,
+                                    "held-copy-differs",
+                                    format!(
+                                        "publish '{}' was written as id={} q{} '{}' but is held for retransmission as id={} q{} '{}' (after {})",
+                                        l.pid, l.pkid, l.qos, l.topic, pkid, qos, topic, v.step_show()
+                                    ),
+                                )),
+                            );
+                        }
+                    }
+                    _ => {
+                        let just_written = new_on_wire.as_deref() == Some(l.pid.as_str());
+                        if just_written {
+                            out.push(
+                                v.tag(Record::new(
+                                    ID,
+                                    "written-not-tracked",
+                                    format!(
+                                        "publish '{}' (id {}) was put on the wire by {} but the state does not track it: clean() would not return it and its acknowledgement will be unsolicited",
+                                        l.pid, l.pkid, v.step_show()
+                                    ),
+                                ))
+                                .fact("how", if via_release { "collision-release" } else { "request" }),
+                            );
+                        } else {
+                            out.push(
+                                v.tag(Record::new(
+                                    ID,
+                                    "live-not-held",
+                                    format!(
+                                        "publish '{}' (id {}, q{}) is unacknowledged but neither in the state's retransmission set nor parked nor pending after {}",
+                                        l.pid, l.pkid, l.qos, v.step_show()
+                                    ),
+                                ))
+                                .fact("phase", "sent"),
+                            );
+                        }
+                    }
+                },
+                Phase::Parked => {
+                    let ok = matches!(&after.collision, Some(Pk::Publish { payload, .. }) if payload == &l.pid);
+                    if !ok {
+                        out.push(
+                            v.tag(Record::new(
+                                ID,
+                                "live-not-held",
+                                format!(
+                                    "publish '{}' was accepted and parked on a collision (id {}) but is no longer held after {}; collision = {:?}",
+                                    l.pid,
+                                    l.pkid,
+                                    v.step_show(),
+                                    after.collision.as_ref().map(|p| p.show())
+                                ),
+                            ))
+                            .fact("phase", "parked"),
+                        );
+                    }
+                }
+                Phase::Released => {
+                    let ok = after.held.rels.contains(&l.pkid)
+                        || v.pending.iter().any(|p| matches!(p, Pk::PubRel { pkid, .. } if *pkid == l.pkid));
+                    if !ok {
+                        out.push(
+                            v.tag(Record::new(
+                                ID,
+                                "live-not-held",
+                                format!(
+                                    "QoS 2 publish '{}' (id {}) awaits PUBCOMP but no release is held for it after {}",
+                                    l.pid,
+                                    l.pkid,
+                                    v.step_show()
+                                ),
+                            ))
+                            .fact("phase", "released"),
+                        );
+                    }
+                }
+            }
+        }
+
+        // (2) the state's own count agrees with what it holds (QoS 2 counted until PUBCOMP)
+        stats.oracle("C02/inflight-accounting");
+        let tracked = after.held.pubs.len() + after.held.rels.len();
+        if after.inflight as usize != tracked {
+            out.push(
+                v.tag(Record::new(
+                    ID,
+                    "inflight-accounting",
+                    format!(
+                        "inflight() = {} but the state holds {} publishes + {} releases after {}",
+                        after.inflight,
+                        after.held.pubs.len(),
+                        after.held.rels.len(),
+                        v.step_show()
+                    ),
+                ))
+                .fact("direction", if (after.inflight as usize) > tracked { "leak" } else { "short" }),
+            );
+        }
+    }
+
+    if let Step::Call { delta, .. } = &v.step {
+        // (3) an accepted publish is either written or announced as parked
+        stats.oracle("C02/accepted-is-written-or-parked");
+        if let Some(pid) = &delta.vanished {
+            out.push(v.tag(Record::new(
+                ID,
+                "accepted-vanished",
+                format!("publish '{pid}' was accepted (Ok) but neither written nor parked: {}", v.step_show()),
+            )));
+        }
+        // (4) a retransmission carries the original id / topic / QoS
+        if let Some((pid, diff)) = &delta.rewritten {
+            stats.oracle("C02/retransmission-unchanged");
+            if !diff.is_empty() {
+                out.push(
+                    v.tag(Record::new(
+                        ID,
+                        "retransmission-changed",
+                        format!("publish '{pid}' was written again with different {:?}: {}", diff, v.step_show()),
+                    ))
+                    .fact("changed", diff.join(",")),
+                );
+            }
+        }
+    }
+
+    // (5) resumed session: once pending is drained every live publish has been written on the
+    // new connection and every pending release has been sent again, without user action
+    if let Step::ReplayDone = v.step {
+        stats.oracle("C02/retransmitted-on-resume");
+        for l in v.model.live.values() {
+            match l.phase {
+                Phase::Sent => {
+                    if l.written_conn != Some(v.conn) {
+                        out.push(
+                            v.tag(Record::new(
+                                ID,
+                                "retransmit-missing",
+                                format!(
+                                    "session resumed on connection {} and pending is drained, but publish '{}' (id {}) was not written again",
+                                    v.conn, l.pid, l.pkid
+                                ),
+                            ))
+                            .fact("what", "publish"),
+                        );
+                    }
+                }
+                Phase::Released => {
+                    if !v.wire.iter().any(|p| matches!(p, Pk::PubRel { pkid, .. } if *pkid == l.pkid)) {
+                        out.push(
+                            v.tag(Record::new(
+                                ID,
+                                "retransmit-missing",
+                                format!(
+                                    "session resumed on connection {} and pending is drained, but no PUBREL({}) was written for '{}'",
+                                    v.conn, l.pkid, l.pid
+                                ),
+                            ))
+                            .fact("what", "pubrel"),
+                        );
+                    }
+                }
+                Phase::Parked => {}
+            }
+        }
+    }
+    out
+}
+
+/// Event-loop half: absent until `src/sub/s3.rs` exists (see module doc).
+pub fn s3_half(_ctx: &Ctx, _stats: &mut Stats) {}
+
+fn run(ctx: &Ctx) -> Stats {
+    let mut stats = cwork::run_family(ctx, ID, cwork::PROFILE_C02, 12_000, 2_000_000);
+    s3_half(ctx, &mut stats);
+    stats
+}
+
+fn replay(ctx: &Ctx, doc: &Value) -> Stats {
+    cwork::replay_family(ctx, ID, doc)
 }
 
 pub fn prop() -> Prop {
     Prop {
-        id: "C02",
+        id: ID,
         meta: Meta {
             level: "exploration",
-            rule: "not built",
-            assumptions: &[],
-            floors: &[],
+            rule: "S2 half only (state machine; the event-loop half with byte-level crash points is not built yet). \
+                   A case is one history of 20-160 ops (user requests through the event loop's gate, read batches of \
+                   broker packets, pings, connection losses, reconnects with session present/absent) against the real \
+                   v4 or v5 MqttState with inflight limit from {1,2,3,5,10,100,65535}, plus 12 (3.1.1) / 22 (MQTT 5) directed scenarios and a 65535-id wrap-around per \
+                   version. Distinct = hash of (version, limit, manual, op-kind sequence incl. packet kinds per batch); \
+                   counted only if the history reached at least one named corner state.",
+            assumptions: &[
+                "a PUBACK for a QoS 2 id / PUBREC for a QoS 1 id that the client accepts counts as the broker's acknowledgement of that id",
+                "MQTT 5: PUBACK, PUBREC with reason >= 0x80 and PUBCOMP end the flow of a publish",
+                "broker reports no session on reconnect => nothing is owed any more (second sentence of the statement is conditional)",
+                "the S2 driver applies the request gate, pending queue and read-batch flush exactly as eventloop.rs/framed.rs do; crash points inside a frame are the S3 half's job",
+            ],
+            floors: &[
+                ("pkid-wrapped", 5000),
+                ("collision-parked", 500),
+                ("collision-released-by-puback", 500),
+                ("collision-released-by-pubcomp", 10),
+                ("collision-across-clean", 200),
+                ("reconnect-session-present", 10000),
+                ("reconnect-session-absent", 3000),
+                ("retransmitted", 10000),
+                ("pkid-wrapped-at-65535", 2),
+                ("C02/live-subset-of-held", 500000),
+                ("C02/retransmitted-on-resume", 10000),
+            ],
         },
         run,
-        replay: None,
+        replay: Some(replay),
     }
 }
